@@ -172,9 +172,35 @@ def gen_value_forest(rng):
             d.attrs.append((0x2107 + rng.randint(0, 5), "data2", 0x8001)); exps.append((None, None))     # user attribute: decoded unsigned, not judged by name
         if d.attrs:
             add(d, exps)
+    # --- DW_AT_ranges: a list in .debug_ranges (DWARF 2-4), offsets relative to the unit's low_pc until a base-address entry
+    ranges_blob = bytearray()
+    if version <= 4:
+        import struct
+        for _ in range(rng.randint(1, 4)):
+            off = len(ranges_blob)
+            base = 0x1000
+            model = set()
+            for _ in range(rng.randint(0, 5)):
+                if rng.random() < 0.2:
+                    base = rng.choice([0, 0x2000, 1 << 40, 0x1000])
+                    ranges_blob += struct.pack("<QQ", (1 << 64) - 1, base)
+                else:
+                    b = rng.randint(1, 0x300)
+                    e = b + rng.choice([0, 1, 2, 0x10, 0x40])
+                    ranges_blob += struct.pack("<QQ", b, e)
+                    model.update(range(base + b, base + e))
+            ranges_blob += struct.pack("<QQ", 0, 0)
+            d = Die(rng.choice(["lexical_block", "subprogram", "inlined_subroutine"]), [("ranges", "sec_offset" if version >= 4 else rng.choice(["data4", "data8"]), off)])
+            runs = []
+            for a in sorted(model):
+                if runs and runs[-1][1] == a:
+                    runs[-1][1] = a + 1
+                else:
+                    runs.append([a, a + 1])
+            add(d, [("ranges", ("aset", [tuple(r) for r in runs]))])
     root.children += dies
     u = Unit(root, version)
-    f = Forest([u])
+    f = Forest([u], ranges=bytes(ranges_blob))
     f.debug_line = b"\0" * 4096     # libdw checks section offsets against the section size
     return f, expect, dies, zoo
 
@@ -260,6 +286,11 @@ def value_ok(exp, vals, hdr, stderr):
         return "" if v["t"] == "die" and v["o"] == exp[1].offset else "reference does not yield the target DIE"
     if k == "block":
         return "" if v["t"] == "q" and [int(x["v"]) for x in v["v"]] == list(exp[1]) and all(x["d"] == "hex" for x in v["v"]) else "block differs"
+    if k == "aset":
+        if v["t"] != "as":
+            return "expected an address set"
+        got = [(int(a), int(a) + int(l)) for a, l in v["r"]]
+        return "" if got == list(exp[1]) else "address set differs (got %s)" % got[:6]
     if v["t"] != "c":
         return "expected a constant"
     n = int(v["v"])
